@@ -231,6 +231,10 @@ def _check_budget(ctx: Ctx, fn: FuncInfo) -> None:
     syms = {a[1] for a in T.atoms_of(aux) if a[0] == 'sym'}
     sums = [a for a in T.atoms_of(aux) if a[0] == 'call' and a[1].split('.')[-1] == 'sum']
     ctx.instance('C12.e', 'doWF:spread')
+    assigned_locals = {x.id for x in ast.walk(fn.node) if isinstance(x, ast.Name) and isinstance(x.ctx, ast.Store)}
+    unresolved = sorted(a[1] for a in T.atoms_of(aux) if a[0] == 'sym' and a[1] in assigned_locals and a[1] not in loc and a[1] not in fn.params)
+    if not sums and len(unresolved) > 1:
+        ctx.error('C12.e: the allocation `%s` is built from locals whose definitions cannot be followed (%s): cannot tell' % (aux.pretty()[:60], unresolved))
     if not sums:
         ctx.obligation('C12.e', 'doWF:spread', False, {'allocation': aux.pretty()})
         ctx.violation('C12.e', 'doWF', 'the allocation `%s` does not add any share of the remaining power (no sum over the tentative powers): it '
